@@ -598,6 +598,26 @@ class ConditionLike:
         return out
 
 
+def _arg_to_json_like(arg, cast_types=False):
+    """Serialise a callable argument such that `ConditionLike.from_spec` rebuilds it."""
+    if isinstance(arg, valida.datapath.DataPath):
+        return arg.to_spec()
+    if cast_types and isinstance(arg, type):
+        return INV_DTYPE_LOOKUP.get(arg, arg)
+    if isinstance(arg, (list, tuple)):
+        return [_arg_to_json_like(i, cast_types) for i in arg]
+    if isinstance(arg, dict):
+        arg = {k: _arg_to_json_like(v, cast_types) for k, v in arg.items()}
+        if any(isinstance(k, str) and "path" in k for k in arg):
+            # escape keys so the mapping is not mistaken for a `DataPath` spec:
+            arg = {
+                (k.replace("path", r"\path") if isinstance(k, str) else k): v
+                for k, v in arg.items()
+            }
+        return arg
+    return copy.deepcopy(arg)
+
+
 class Condition(ConditionLike):
     PRE_PROCESSOR = None
 
@@ -716,43 +736,32 @@ class Condition(ConditionLike):
             func_args[i] for i in ("VAR_POSITIONAL", "VAR_KEYWORD")
         ):
             # single pos-or-kw and nothing else, spec val is just that single value:
-            spec_val = copy.deepcopy(next(iter(self.callable.kwargs.values())))
-            if cast_types:
-                spec_val = INV_DTYPE_LOOKUP[spec_val]
+            spec_val = _arg_to_json_like(
+                (list(self.callable.args) + list(self.callable.kwargs.values()))[0],
+                cast_types,
+            )
 
         elif len(func_args["POSITIONAL_OR_KEYWORD"]) > 1 and not any(
             func_args[i] for i in ("VAR_POSITIONAL", "VAR_KEYWORD")
         ):
             # more than one pos-or-kw and nothing else, spec val is a dict of kwargs:
-            spec_val = copy.deepcopy(self.callable.kwargs)
-            if cast_types:
-                for k, v in spec_val.items():
-                    try:
-                        spec_val[k] = INV_DTYPE_LOOKUP[v]
-                    except KeyError:
-                        continue
+            spec_val = {
+                k: _arg_to_json_like(v, cast_types)
+                for k, v in self.callable.kwargs.items()
+            }
 
         elif len(func_args["VAR_POSITIONAL"]) == 1 and not any(
             func_args[i] for i in ("POSITIONAL_OR_KEYWORD", "VAR_KEYWORD")
         ):
             # one var-positional and nothing else, spec val is a list of args:
-            spec_val = copy.deepcopy(list(self.callable.args))
-            if cast_types:
-                for idx, val in enumerate(spec_val):
-                    try:
-                        spec_val[idx] = INV_DTYPE_LOOKUP[val]
-                    except KeyError:
-                        continue
+            spec_val = [_arg_to_json_like(i, cast_types) for i in self.callable.args]
 
         elif len(func_args["VAR_KEYWORD"]) == 1 and not func_args["VAR_POSITIONAL"]:
             # zero or more pos-or-kw args and a var-kw arg, spec val is a dict of kwargs:
-            spec_val = copy.deepcopy(self.callable.kwargs)
-            if cast_types:
-                for k, v in spec_val.items():
-                    try:
-                        spec_val[k] = INV_DTYPE_LOOKUP[v]
-                    except KeyError:
-                        continue
+            spec_val = {
+                k: _arg_to_json_like(v, cast_types)
+                for k, v in self.callable.kwargs.items()
+            }
 
         else:
             raise NotImplementedError(
